@@ -26,6 +26,24 @@ PLAN = {
             {"name": "n-hist-snap", "argv": [VNATIVE, "hist", "--property", "C03"]},
         ],
     },
+    "C06": {
+        "packages": ["vnative"],
+        "engines": [
+            {"name": "n-times", "argv": [VNATIVE, "times", "--property", "C06"]},
+        ],
+    },
+    "C07": {
+        "packages": ["vnative"],
+        "engines": [
+            {"name": "n-times", "argv": [VNATIVE, "times", "--property", "C07"]},
+        ],
+    },
+    "C11": {
+        "packages": ["vnative"],
+        "engines": [
+            {"name": "n-layout", "argv": [VNATIVE, "layout", "--property", "C11"]},
+        ],
+    },
     "C09": {
         "packages": ["vnative"],
         "engines": [
@@ -106,6 +124,27 @@ META = {
         "technique": "property-based testing with a history invariant: full snapshots of every readable executable mapping between all steps of generated install histories; diff must lie inside named targets' 16-byte entry slots or injector-created trampoline pages",
         "text": "480 (quick) / 1.6*10^4 (thorough) generated histories with ~6 full executable-memory snapshots each (program text, all shared objects, vdso, arenas, trampolines; ~10 MB per snapshot). Targets sit between live neighbours at +/-16 bytes in synthetic arenas (incl. the last slot of a page), next to another instantiation of the same generic function and next to libc neighbours. Every differing byte between consecutive snapshots must be within 16 bytes of a target named so far or inside a mapping the interposer saw the injector create; after the drop the diff against the first snapshot must be empty; never-named functions are called at every observation point.",
         "note": NATIVE_NOTE,
+    },
+    "C06": {
+        "level": "exploration",
+        "design_ref": "DESIGN.md §4 C06",
+        "technique": "model-based property-based testing: generated (N, matching/non-matching call sequences, split over 1-16 threads, exit path) against fakes built by fake!(..., times: N) with N routed through a static; oracle = order-free reference model of the call budget and the exit verdict",
+        "text": "3*10^3 (quick) / 2*10^5 (thorough) generated lifetimes-sequences over 4 fake! call sites in the harness (when+returns+times, returns+times, unit assign+times, when+assign+returns+times); engine G adds every arm of the macro that has `times`. Exactly min(k,N) matching calls return (with the freshly evaluated value), the rest panic at the call, calls failing `when` panic and are not counted, the exit verdict fires iff k != N and not unwinding and names both numbers; with up to 16 concurrent callers the counts are compared order-free. Each case runs in a fresh process.",
+        "note": NATIVE_NOTE + " Schedules of concurrent callers are sampled by the OS scheduler, not enumerated; a lost-update bug needs a colliding interleaving to show (the mutation audit's load+yield+store variant is caught; a bare load/store may need the thorough tier).",
+    },
+    "C07": {
+        "level": "exploration",
+        "design_ref": "DESIGN.md §4 C07",
+        "technique": "metamorphic property-based testing: generated sequences of injector lifetimes evaluating the same fake!(..., times: N) expression; each lifetime must behave as if it were the only one in its process (reference model counting from zero)",
+        "text": "3*10^3 (quick) / 2*10^5 (thorough) generated sequences of 2..8 lifetimes at one of 4 call sites, any number of calls in each lifetime, N changing between lifetimes, each sequence in a fresh process (so the case is the complete history of the site's static counter).",
+        "note": NATIVE_NOTE + " Two installations of the same call site alive in the *same* injector share one static counter by construction; the statement speaks of earlier installations, and only those are generated.",
+    },
+    "C11": {
+        "level": "fault_enumeration",
+        "design_ref": "DESIGN.md §4 C11",
+        "technique": "property-based fault injection: generated address-space layouts around the target (full / one free page at every offset class incl. the extremes / sparse; occupied hints answered by far fallback, MAP_FAILED or an adversarial in-range page), realised through the interposer's layout model and with the real kernel (PROT_NONE reservation with punched holes); oracle = history invariant over the mmap/munmap log + decoded entry branch",
+        "text": "1.6*10^3 (quick) / 10^5 (thorough) generated (target, layout, fallback behaviour, realisation) cases incl. targets below 128 MiB (window clipped at zero) and page-aligned targets. Success: the entry decodes to a branch into the single mapping that was kept, every other mapping obtained during the search was given back with its own address and length, and the call reaches the fake. Panic: target untouched, nothing left mapped, nothing unmapped twice. x86-64's rel32 reach exceeds the search window, so finite reach is decided for AArch64 in simulation (s2-arm64 engine when present).",
+        "note": NATIVE_NOTE + " That installation succeeds whenever a free page exists is not demanded (refusal rate is reported in evidence only).",
     },
     "C09": {
         "level": "exploration",
